@@ -167,13 +167,15 @@ structure ModuleOfDoc (stog : List (NRect α) → List (NRect α)) (info : List 
     (∀ cv, HasAttr info "center" cv → ∃ c, CenterOfDoc cv c ∧ m.center = some c) ∧
     (NoAttr info "center" → m.center = none)
   /-- `rectangles`: the loaded rectangles are the STOG step applied to the rectangles the entries describe (in document
-      order); the centre is THEIR area-weighted centroid whatever `center` says; a hard module's area is THEIR total -/
+      order); the centre is THEIR area-weighted centroid whatever `center` says; a hard module's area is THEIR total;
+      each of them carries the module's `fixed` / `hard` flags (which `fixed_iff`, `soft_iff` tie to the document) -/
   rects : ∀ rv, HasAttr info "rectangles" rv → ∃ es rs0, rectEntries rv = some es ∧ List.Forall₂ EntryRect es rs0 ∧
     rs0 ≠ [] ∧ m.rects = stog rs0 ∧
     m.center = some ((rs0.map fun r => r.area * r.cx.val).sum / (rs0.map NRect.area).sum,
                      (rs0.map fun r => r.area * r.cy.val).sum / (rs0.map NRect.area).sum) ∧
     0 < (rs0.map NRect.area).sum ∧
-    (m.hard = true → m.areaRegions = [("_", (rs0.map NRect.area).sum)])
+    (m.hard = true → m.areaRegions = [("_", (rs0.map NRect.area).sum)]) ∧
+    (∀ r ∈ rs0, r.fixed = m.fixed ∧ r.hard = m.hard)
 
 /-- MODULES: the loaded modules are the entries of the document's `Modules` dictionary, in the same order and under the
     same names, and every field of a loaded module is what its entry says (`ModuleOfDoc`). -/
@@ -204,7 +206,11 @@ theorem modules_of_document {t : YVal α} {n : Netlist α} {mods : List (YVal α
         exact ⟨hr, d9, d10⟩
       · intro rv hrv
         obtain ⟨es, hes, hF2, hne⟩ := d8 rv hrv
-        refine ⟨es, m0.rects, hes, hF2, hne, ?_, ?_, ?_, ?_⟩
+        refine ⟨es, m0.rects, hes, hF2, hne, ?_, ?_, ?_, ?_, ?_⟩
+        rotate_right
+        · intro r hr
+          rw [g1, g2]
+          exact ⟨(hok.rects_ok r hr).fixed_eq, (hok.rects_ok r hr).hard_eq⟩
         · rw [finalize_rects_cons hne]
         · rw [finalize_rects_cons hne, centroid_def]
         · obtain ⟨r, rest, hrr⟩ := List.exists_cons_of_ne_nil hne
@@ -272,6 +278,56 @@ theorem nets_of_document {t : YVal α} {n : Netlist α} {nets : List (YVal α)} 
 theorem missing_keys {t : YVal α} {n : Netlist α} (h : parseNetlist stog εA t = .ok n) :
     (NoRootKey t "Nets" → n.nets = []) ∧ (NoRootKey t "Modules" → n.modules = []) :=
   ⟨fun hd => loaded_no_nets hd h, fun hd => loaded_no_modules hd h⟩
+
+/-- FIXED RECTANGLES at the level of the document: `fixed_rectangles()` filters the flat list (document order); what is
+    left is, chunk by chunk, everything of the modules whose entry says `fixed: true` and nothing of the others. -/
+theorem fixedRectangles_of_document {t : YVal α} {n : Netlist α} {mods : List (YVal α × YVal α)}
+    (hd : HasModules t mods) (h : parseNetlist stog εA t = .ok n) :
+    ∃ rss : List (List (NRect α)), loadRectangles stog εA t = .ok rss.flatten ∧
+      fixedOf rss.flatten = (rss.map fixedOf).flatten ∧
+      List.Forall₂ (fun (e : YVal α × YVal α) (rs0 : List (NRect α)) => ∃ k info, e = (k, YVal.map info) ∧
+        (HasAttr info "fixed" (.bool true) → fixedOf rs0 = rs0) ∧
+        (¬ HasAttr info "fixed" (.bool true) → fixedOf rs0 = [])) mods rss := by
+  obtain ⟨ms, hF, hmods, es, hdoc⟩ := loaded_modules_doc hd h
+  refine ⟨ms.map (·.rects), ?_, ?_, ?_⟩
+  · simp [loadRectangles, h, hdoc, List.flatMap_def]
+  · unfold fixedOf
+    generalize ms.map (·.rects) = rss
+    induction rss with
+    | nil => rfl
+    | cons x xs ih => simp only [List.flatten_cons, List.filter_append, List.map_cons, ih]
+  · clear hmods hdoc hd
+    induction hF with
+    | nil => exact List.Forall₂.nil
+    | @cons e m0 _ _ hpe _ ih =>
+      refine List.Forall₂.cons ?_ ih
+      obtain ⟨name, l, _, _, _, _, he1, _, he2, _⟩ := parseModule_ok hpe
+      have hee : e = (e.1, YVal.map l) := Prod.ext rfl he2
+      rw [hee] at hpe
+      obtain ⟨_, _, _, d4, _, _, _, _, _, _⟩ := parseModule_doc hpe
+      have hok := (parseModule_modOK hpe).1
+      refine ⟨e.1, l, hee, ?_, ?_⟩
+      · intro hf
+        have hfx := d4.mpr hf
+        unfold fixedOf
+        exact List.filter_eq_self.mpr (fun r hr => by rw [(hok.rects_ok r hr).fixed_eq, hfx])
+      · intro hnf
+        have hfx : m0.fixed = false := by
+          cases hc : m0.fixed with
+          | false => rfl
+          | true => exact absurd (d4.mp hc) hnf
+        unfold fixedOf
+        exact List.filter_eq_nil_iff.mpr (fun r hr => by rw [(hok.rects_ok r hr).fixed_eq, hfx]; simp)
+
+/-- the names of a loaded netlist are distinct: "the module a net names" is one module. -/
+theorem names_nodup {t : YVal α} {n : Netlist α} (h : parseNetlist stog εA t = .ok n) :
+    (n.modules.map (·.name)).Nodup := by
+  obtain ⟨ms, es, hd, _, hmods, _⟩ := parseNetlist_modules h
+  rw [hmods, List.map_map]
+  have : (ms.map ((fun m => m.name) ∘ finalize stog)) = ms.map (·.name) := by
+    apply List.map_congr_left; intro m _; simp
+  rw [this]
+  exact (parseDoc_mods_ok hd).2.1
 
 /-- every rectangle of a loaded module carries the module's `fixed` and `hard` flags. -/
 theorem rectangle_flags (hp : StogPerm stog) {t : YVal α} {n : Netlist α} (h : parseNetlist stog εA t = .ok n)
@@ -738,6 +794,31 @@ theorem reject_hard_overlap {t : YVal α} (h : HardWithOverlap εA t) :
   rw [areaOverlap_geom a1 a2 a3 a4 b1 b2 b3 b4] at hov
   exact absurd hov (not_lt.mpr hfalse)
 
+/-- FRESH PROCESS: when no tolerance is defined the netlist installs the one it proposes, `defaultEps` =
+    (`d·1e-12`, `sqrt(d·1e-12)`) with `d` the smallest rectangle side / square root of a positive module area; a hard
+    module whose rectangles overlap by more than THAT area tolerance is rejected (`loadFresh` = `Netlist(tree)` with the
+    tolerance undefined). -/
+theorem reject_hard_overlap_fresh (sqrt : α → α) (tiny : α) (stogOf : α → α → List (NRect α) → List (NRect α))
+    {t : YVal α} {ms : List (NL.Mod α)} {es : List (Net α)} {ε εA' : α} (hdoc : parseDoc t = .ok (ms, es))
+    (heps : defaultEps sqrt tiny ms = some (ε, εA')) (h : HardWithOverlap εA' t) :
+    ∃ err, loadFresh sqrt tiny stogOf t = .error err := by
+  have hl : loadFresh sqrt tiny stogOf t = parseNetlist (stogOf ε εA') εA' t := by
+    simp [loadFresh, parseNetlist, hdoc, heps]
+  rw [hl]
+  exact reject_hard_overlap h
+
+/-- the proposed tolerance in terms of the smallest dimension. -/
+theorem defaultEps_def (sqrt : α → α) (tiny : α) (ms : List (NL.Mod α)) :
+    defaultEps sqrt tiny ms = (smallestDistance sqrt ms).map fun d => (d * tiny, sqrt (d * tiny)) := by
+  unfold defaultEps; cases smallestDistance sqrt ms <;> rfl
+
+
+/-- the proposed tolerance is built on a lower bound of every rectangle side and of the square root of every positive
+    module area (`smallest_distance`). -/
+theorem smallestDistance_bound (sqrt : α → α) (ms : List (NL.Mod α)) (d : α) (h : smallestDistance sqrt ms = some d) :
+    (∀ m ∈ ms, ∀ r ∈ m.rects, d ≤ r.w.val ∧ d ≤ r.h.val) ∧ (∀ m ∈ ms, 0 < m.area → d ≤ sqrt m.area) :=
+  smallestDistance_le sqrt ms d h
+
 /-- (8) a module has an attribute that is not one of the eight keywords. -/
 def UnknownAttribute (t : YVal α) : Prop :=
   ∃ mods, HasModules t mods ∧ ∃ k info key v, (k, YVal.map info) ∈ mods ∧ (key, v) ∈ info ∧
@@ -964,6 +1045,106 @@ example : (match parseNetlist (fun rs => rs.map fun r => { r with loc := Loc.tru
     | .ok n => n.modules.map (·.area) == [5, 8, 0] && n.modules.map (·.center) == [none, some (2, 2), some (5, 2)]
                && n.fixedRectangles.length == 0 && n.rectangles.length == 1
     | .error _ => false) = true := by decide +kernel
+
+/-! ### the document-level theorems APPLIED to a five-module document loaded with the real `create_stog`
+(`stogC06`, tolerances 1/1000): soft `A` (two regions), soft `S` (explicit centre AND two rectangles: the centre is
+overridden), hard `H` (two rectangles), fixed `F` (single-rectangle shorthand), terminal `T`; two nets. -/
+
+def isOkB {ε β : Type} : Except ε β → Bool | .ok _ => true | .error _ => false
+theorem ok_of_isOkB {ε β : Type} {x : Except ε β} (h : isOkB x = true) : ∃ y, x = .ok y := by
+  cases x with
+  | ok y => exact ⟨y, rfl⟩
+  | error e => cases h
+
+abbrev Y := YVal Rat
+-- soft, two regions, no centre
+def mA : Y × Y := (.str "A", .map [(.str "area", .map [(.str "_", .int 3), (.str "dsp", .float 2)])])
+-- soft WITH explicit centre [100,100] AND two rectangles (one in dsp): the centre must be overridden
+def mS : Y × Y := (.str "S", .map [(.str "area", .int 6), (.str "center", .seq [.int 100, .int 100]),
+  (.str "rectangles", .seq [.seq [.int 10, .int 10, .int 2, .int 2], .seq [.int 12, .int 10, .int 2, .int 1, .str "dsp"]])])
+def mH : Y × Y := (.str "H", .map [(.str "hard", .bool true), (.str "rectangles", .seq [.seq [.int 1, .int 1, .int 2, .int 2], .seq [.int 3, .int 1, .int 2, .int 4]])])
+-- fixed, single-rectangle shorthand
+def mF : Y × Y := (.str "F", .map [(.str "fixed", .bool true), (.str "rectangles", .seq [.int 20, .int 20, .int 4, .int 2])])
+def mT : Y × Y := (.str "T", .map [(.str "terminal", .bool true), (.str "center", .seq [.int 5, .int 2])])
+def goodNets : List Y := [.seq [.str "S", .str "H", .str "T"], .seq [.str "H", .str "F", .int 2]]
+def good : Y := doc [mA, mS, mH, mF, mT] goodNets
+abbrev e3 : Rat := 1/1000
+abbrev LD (t : Y) := parseNetlist (stogC06 e3 e3) e3 t
+
+theorem good_ok : isOkB (LD good) = true := by decide +kernel
+
+/-! modules_of_document applied: 2nd module (explicit centre + 2 rectangles) -/
+example : ∃ (n : Netlist Rat) (m : NL.Mod Rat) (rs0 : List (NRect Rat)), LD good = .ok n ∧ n.modules[1]? = some m ∧
+    m.name = "S" ∧ rs0.length = 2 ∧ m.rects = stogC06 e3 e3 rs0 ∧
+    m.center = some ((rs0.map fun r => r.area * r.cx.val).sum / (rs0.map NRect.area).sum,
+                     (rs0.map fun r => r.area * r.cy.val).sum / (rs0.map NRect.area).sum) ∧
+    0 < (rs0.map NRect.area).sum ∧ AreaOfDoc (.int 6 : Y) m.areaRegions ∧ m.fixed = false := by
+  obtain ⟨n, hn⟩ := ok_of_isOkB good_ok
+  have hF := modules_of_document (hasModules_doc _ _) hn
+  generalize hms : n.modules = ms at hF
+  -- peel the Forall₂
+  cases hF with
+  | cons h1 hF2 =>
+    cases hF2 with
+    | cons h2 hF3 =>
+      rename_i ms1 m2 ms2
+      obtain ⟨info, he, hmod⟩ := h2
+      have hinfo : info = [(.str "area", .int 6), (.str "center", .seq [.int 100, .int 100]),
+          (.str "rectangles", .seq [.seq [.int 10, .int 10, .int 2, .int 2], .seq [.int 12, .int 10, .int 2, .int 1, .str "dsp"]])] := by
+        simp [mS] at he; exact he.2.symm
+      have hname : m2.name = "S" := by simp [mS] at he; exact he.1.symm
+      subst hinfo
+      obtain ⟨es, rs0, hes, hFR, hne, hr, hc, hpos, _⟩ := hmod.rects (.seq [.seq [.int 10, .int 10, .int 2, .int 2], .seq [.int 12, .int 10, .int 2, .int 1, .str "dsp"]]) (by simp [HasAttr])
+      have hes' : es = [.seq [.int 10, .int 10, .int 2, .int 2], .seq [.int 12, .int 10, .int 2, .int 1, .str "dsp"]] := by
+        simp [rectEntries, YVal.isNumber, YVal.num?] at hes; exact hes.symm
+      have hlen : rs0.length = 2 := by rw [← hFR.length_eq, hes']; rfl
+      have hsoft : m2.hard = false := hmod.soft_iff.mpr ⟨.int 6, by simp [HasAttr], by simp⟩
+      have harea := hmod.area (.int 6) (by simp [HasAttr]) hsoft
+      have hfix : m2.fixed = false := by
+        cases hf : m2.fixed with
+        | false => rfl
+        | true => have := hmod.fixed_iff.mp hf; simp [HasAttr] at this
+      exact ⟨n, m2, rs0, hn, by rw [hms]; simp, hname, hlen, hr, hc, hpos, harea, hfix⟩
+
+/-! rectangles_def applied: 5 chunks, flat list = their concatenation -/
+example : ∃ (n : Netlist Rat) (rss : List (List (NRect Rat))), LD good = .ok n ∧ rss.length = 5 ∧
+    loadRectangles (stogC06 e3 e3) e3 good = .ok rss.flatten := by
+  obtain ⟨n, hn⟩ := ok_of_isOkB good_ok
+  obtain ⟨rss, hF, hl, _⟩ := rectangles_def (hasModules_doc _ _) hn
+  exact ⟨n, rss, hn, by rw [← hF.length_eq]; rfl, hl⟩
+
+/-! nets_of_document applied -/
+example : ∃ (n : Netlist Rat), LD good = .ok n ∧ List.Forall₂ NetOfDoc goodNets n.nets ∧ n.nets.length = 2 := by
+  obtain ⟨n, hn⟩ := ok_of_isOkB good_ok
+  have h := (nets_of_document (hasNets_doc _ _) hn).1
+  exact ⟨n, hn, h, by rw [← h.length_eq]; rfl⟩
+
+/-! wireLength_loaded applied (sqrt := id) -/
+theorem good_wl : (match LD good with | .ok n => (n.wireLength (fun x => x)).isSome | .error _ => false) = true := by decide +kernel
+example : ∃ (n : Netlist Rat) (w : Rat), LD good = .ok n ∧ n.wireLength (fun x => x) = some w ∧
+    ∀ e ∈ n.nets, 2 ≤ (netCenters n e).length ∧ 0 < e.weight := by
+  obtain ⟨n, hn⟩ := ok_of_isOkB good_ok
+  have := good_wl; rw [hn] at this; simp at this
+  obtain ⟨w, hw⟩ := Option.isSome_iff_exists.mp this
+  obtain ⟨_, h2⟩ := wireLength_loaded (fun x => x) hn w hw
+  exact ⟨n, w, hn, hw, fun e he => (h2 e he).2⟩
+
+/-! wireLength_none_loaded applied: a net names soft A (no centre) -/
+def noCtr : Y := doc [mA, mT] [.seq [.str "A", .str "T"]]
+theorem noCtr_none : (match LD noCtr with | .ok n => (n.wireLength (fun x => x)).isNone | .error _ => false) = true := by decide +kernel
+example : ∃ (n : Netlist Rat), LD noCtr = .ok n ∧ ∃ e ∈ n.nets, ∃ x ∈ e.members, ∃ m ∈ n.modules, m.name = x ∧ m.center = none := by
+  have hok : isOkB (LD noCtr) = true := by decide +kernel
+  obtain ⟨n, hn⟩ := ok_of_isOkB hok
+  have := noCtr_none; rw [hn] at this; simp at this
+  exact ⟨n, hn, wireLength_none_loaded (fun x => x) hn this⟩
+
+/-! missing_keys applied: Modules only -/
+def modsOnly : Y := .map [(.str "Modules", .map [mA])]
+example : ∃ (n : Netlist Rat), LD modsOnly = .ok n ∧ n.nets = [] := by
+  have hok : isOkB (LD modsOnly) = true := by decide +kernel
+  obtain ⟨n, hn⟩ := ok_of_isOkB hok
+  exact ⟨n, hn, (missing_keys hn).1 ⟨_, rfl, by intro v h; simp [mA] at h⟩⟩
+
 
 end examples
 
